@@ -519,6 +519,52 @@ def check_corpus(case, ev):
 REPLAY["corpus"] = check_corpus
 
 
+def check_toggle(case, ev):
+    """One long-lived FileAnonymizer driven in both directions by setting its public `undo_ip_anon`
+    attribute between calls, and fed several inputs one after another (one of them cut off inside an
+    embedded certificate): every answer equals that of a fresh object of that direction asked only that
+    question.  case: {cfg, texts: [str], dirs: [bool]}"""
+    cfg = case["cfg"]
+    fa, exc = guarded(G.file_anonymizer, cfg)
+    if exc is not None:
+        return core.exc_finding(exc, case, "ctor/")
+    for k, (text, undo) in enumerate(zip(case["texts"], case["dirs"])):
+        fa.undo_ip_anon = bool(undo)
+        got, exc = guarded(core.run_io, fa, text)
+        if exc is not None:
+            return core.exc_finding(exc, case, "run/")
+        fresh, exc = guarded(G.file_anonymizer, cfg, bool(undo))
+        if exc is not None:
+            return core.exc_finding(exc, case, "ctor/")
+        want, exc = guarded(core.run_io, fresh, text)
+        if exc is not None:
+            return core.exc_finding(exc, case, "reference/")
+        if got != want:
+            return Finding("toggle/answer-of-a-long-lived-file-anonymizer-differs-from-fresh:%s" % ("undo" if undo else "anonymize"), "cfg=%r: request %d (%s) %r -> %r, a fresh object gives %r (earlier requests: %r)" % (cfg, k, "undo" if undo else "anonymize", text, got, want, list(zip(case["texts"][:k], case["dirs"][:k]))), case)
+    ev.case(case, len(set(case["dirs"])) == 2, ["long-lived-file-anonymizer", "requests%d" % len(case["texts"])] + (["both-directions"] if len(set(case["dirs"])) == 2 else []))
+    return None
+
+
+REPLAY["toggle"] = check_toggle
+
+
+@st.composite
+def _toggle_case(draw):
+    cfg = draw(G.config())
+    texts = []
+    for _ in range(draw(st.integers(2, 5))):
+        ls = [draw(G.token_line(cfg=cfg))["line"] for _ in range(draw(st.integers(1, 3)))]
+        if draw(st.integers(0, 4)) == 0:
+            # an input that ends inside an embedded certificate block
+            ls = ls + ["-----BEGIN CERTIFICATE-----", "MIIBszCCAVmgAwIBAgIUQ0dV"]
+        texts.append("".join(l.replace("\r", " ") + "\n" for l in ls))
+    return {"cfg": cfg, "texts": texts, "dirs": [draw(st.booleans()) for _ in texts]}
+
+
+def t_toggle(shard, nshards, seed, ev, known, n=150):
+    return core.hyp_drive(_toggle_case(), check_toggle, n, seed, ev, known, check_name="toggle")
+
+
 def t_corpus(shard, nshards, seed, ev, known, n=4):
     import re
 
@@ -545,4 +591,5 @@ def plan(tier):
         Task("files", t_files, shards=2 if q else 16, n=60 if q else 1500),
         Task("nosalt_run", t_nosalt_run, shards=1 if q else 4, n=30 if q else 600),
         Task("corpus", t_corpus, shards=2 if q else 8, n=3 if q else 25),
+        Task("toggle", t_toggle, shards=2 if q else 8, n=200 if q else 5000),
     ]
